@@ -315,15 +315,21 @@ func nativize(c *fw.Case, rows []any, col string) {
 		case 10:
 			if f >= 0 {
 				m[col] = uint(f)
-			} else {
+			} else if f >= -2147483648 {
 				m[col] = int32(f)
+			} else {
+				m[col] = int64(f)
 			}
 		case 0:
 			m[col] = int(f)
 		case 1:
 			m[col] = int64(f)
 		case 2:
-			m[col] = int32(f)
+			if f >= -2147483648 && f <= 2147483647 {
+				m[col] = int32(f)
+			} else {
+				m[col] = int64(f)
+			}
 		default:
 			if f >= 0 {
 				m[col] = uint64(f)
